@@ -198,7 +198,7 @@ def main():
             na.append({'property_id': pid, 'reason': NA.get(pid, PENDING_REASON)})
     m = {
         'version': 1,
-        'setup_cmd': '/venv/bin/python extract/extract.py && cd lean && lake build',
+        'setup_cmd': 'sh harness/setup.sh',
         'hooks': {
             'guard': 'PROMETHEUS_CLIENT_PYTHON_VERIF',
             'enable': 'no hook is compiled into /repo; checks import /repo\'s working tree in-process and patch module attributes from the harness side (the variable is set by check.py for uniformity only)',
